@@ -89,6 +89,18 @@ def cases(tier, seed):
             ["FU", ["FU", S_, M_], ["FU", ct8, S_]]]
     for i in range(0, len(wide), 2):
         yield {"named": False, "programs": wide[i:i + 2], "ncols": 12}
+    # column names containing the characters DOT record labels give a meaning to ({ } | < >): edges must still start at declared nodes
+    mp = {"a": "size|cm", "b": "a{b}", "c": "x<y>"}
+
+    def ren(p):
+        if p[0] == "CT":
+            return ["CT", [[ren(c[0]), [mp.get(x, x) for x in c[1]]] for c in p[1]], p[2]]
+        if p[0] in ("FU", "P"):
+            return [p[0]] + [ren(q) for q in p[1:]]
+        return p
+    sp = [ren(p) for p in _programs(1, True) if p[0] == "CT"]
+    for i in range(0, len(sp), 8):
+        yield {"named": True, "programs": sp[i:i + 8], "special_names": True}
     # degenerate but legal shapes: a ColumnTransformer entry selecting zero columns, a one-entry union around it, a single-step pipeline
     for named in (True, False):
         c3 = ["a", "b", "c"] if named else [0, 1, 2]
@@ -267,6 +279,8 @@ def run_case(case):
 
     ncols = case.get("ncols", 3)
     names = list("abcdefghijkl")[:ncols]
+    if case.get("special_names"):
+        names = ["size|cm", "a{b}", "x<y>"]
     X = numpy.array([[(i * 3 + 2 * j) % 7 + 0.5 * j + 0.1 * (j // 3) * i for j in range(ncols)] for i in range(8)], dtype=float)
     df = pandas.DataFrame(X, columns=names)
     yreg = X.sum(axis=1)
@@ -396,7 +410,11 @@ def run_case(case):
                     continue
                 colnames = list(names) if sname != "array" else ["X%d" % i_ for i_ in range(ncols)]
                 for cn in colnames:
-                    if cn not in [t.split("> ")[-1] for t in labels["sch0"].split("|")]:
+                    if case.get("special_names"):
+                        esc = cn.replace("|", "\\|").replace("{", "\\{").replace("}", "\\}").replace("<", "\\<").replace(">", "\\>")
+                        if cn not in labels["sch0"] and esc not in labels["sch0"]:
+                            bad("pipeline2dot: an input column is missing from the input schema", cond, "%s %s" % (cn, desc))
+                    elif cn not in [t.split("> ")[-1] for t in labels["sch0"].split("|")]:
                         bad("pipeline2dot: an input column is missing from the input schema", cond, "%s %s" % (cn, desc))
                 alll = list(labels.values())
                 for _c, m in _ref_enum(pipe):
